@@ -50,6 +50,7 @@ THEOREMS = [
     "call_footprint_sound", "call_writes_declared", "call_solo_result",
     "calls_noninterference", "multiref_per_call_safe", "multiref_shared_refuted",
     "clone_independent", "clone_keeps_original",
+    "no_class_level_writes", "binding_cells_untouched", "labelled_plan_is_schedule",
     "clone_lookup_total", "clone_lookup_unguarded_refuted",
 ]
 
@@ -294,6 +295,7 @@ class World(object):
         import suds.transport.https
         import suds.transport.http
         import suds.bindings.multiref
+        import suds.bindings.binding
         import suds.xsd.sxbasic
         self.suds = suds
         self.sudsutil = sudsutil
@@ -589,6 +591,24 @@ class Classifier(object):
         if isinstance(o, MultiRef) and field[0] == "attr" and field[1] in ("nodes", "catalog"):
             ctor = "LMrNodes" if field[1] == "nodes" else "LMrCatalog"
             return "(%s %s)" % (ctor, cN(self.intern("multiref", g.order[oid]))), "MultiRef.%s (shared object)" % field[1]
+        # who owns the cell?  climb out of builtin containers to the first real owner
+        cur, hop = oid, field
+        while isinstance(g.objs.get(cur), (dict, list, set, tuple)):
+            p_ = g.parent.get(cur)
+            if not p_ or p_[0] is None:
+                break
+            cur, hop = p_[0], p_[1]
+        owner = g.objs.get(cur)
+        attr = hop[1] if isinstance(hop, tuple) else str(hop)
+        if isinstance(owner, type) or type(owner) is type(sys):
+            oname = ("class %s.%s" % (owner.__module__, owner.__name__)) if isinstance(owner, type) \
+                else "module " + owner.__name__
+            return "(LClassAttr %s %s)" % (cN(self.intern("class", oname)), cN(self.intern("attr", str(attr)))), \
+                "%s: class-level cell %s%s" % (oname, attr, "" if cur == oid else " -> " + str(field[1]))
+        if isinstance(owner, suds.bindings.binding.Binding):
+            return "(LBinding %s %s)" % (cN(self.intern("binding", g.order[cur])), cN(self.intern("attr", str(attr)))), \
+                "%s object: per-binding cell %s%s" % (type(owner).__name__, attr,
+                                                      "" if cur == oid else " -> " + str(field[1]))
         what = "%s %s" % (g.describe(oid), field[1])
         return "(LOther %s %s)" % (cN(self.intern("other-owner", g.describe(oid))),
                                     cN(self.intern("other-field", repr(field)))), what
@@ -795,6 +815,227 @@ def ow_term(d):
 # instrument 2: deterministic scheduler
 # ---------------------------------------------------------------------------
 
+class Labels(object):
+    """Line numbers of the modelled statements, read from the source of the
+    implementation under test (so that they follow the tree being checked)."""
+
+    def __init__(self, world):
+        import inspect
+        suds = world.suds
+        self.ok = True
+
+        def lines(fn, patterns):
+            out = {}
+            try:
+                src, first = inspect.getsourcelines(fn)
+            except Exception:
+                self.ok = False
+                return {k: None for k in patterns}
+            for name, pat in patterns.items():
+                hit = [first + i for i, text in enumerate(src) if pat in text]
+                out[name] = hit[0] if hit else None
+                if not hit:
+                    self.ok = False
+            return out
+        MR = suds.bindings.multiref.MultiRef
+        self.process = lines(MR.process, {"nodes": "self.nodes = []", "catalog": "self.catalog = {}",
+                                          "build": "self.build_catalog(", "update": "self.update(",
+                                          "finish": "body.children = self.nodes"})
+        self.build = lines(MR.build_catalog, {"for": "for child in", "append": "self.nodes.append(child)",
+                                              "set": "self.catalog[key] = child"})
+        self.resolve = lines(suds.xsd.sxbasic.TypedContent.resolve,
+                             {"get": "resolved_cache.get(", "set": "self.resolved_cache[nobuiltin] ="})
+        self.subclass = lines(suds.sudsobject.Factory.subclass.__func__,
+                              {"get": "cls.cache.get(", "set": "cls.cache[key] ="})
+        self.send = lines(suds.transport.http.HttpTransport.send, {"proxy": "self.proxy = self.options.proxy"})
+
+
+TAGS = {("sxbasic.py", "resolve"): "memo_r", ("sudsobject.py", "subclass"): "memo_f",
+        ("client.py", "last_sent"): "tx", ("client.py", "last_received"): "rx",
+        ("http.py", "send"): "send", ("http.py", "u2open"): "open",
+        ("multiref.py", "process"): "proc", ("multiref.py", "replace_references"): "rr"}
+END = 4999
+
+
+class Tracker(object):
+    """The LABEL of one real thread: which instruction of the model's program
+    (coq/C13/Model.v: call_code) it has completed and where inside the next
+    one it is.  Fed with the thread's call/return events; the label of the
+    point of suspension is read off the thread's own stack (the line each of
+    MultiRef.process / build_catalog / replace_references / TypedContent.resolve
+    / Factory.subclass / HttpTransport.send is executing)."""
+
+    def __init__(self, world, labels, intern, kids, nh):
+        self.w = world
+        self.L = labels
+        self.intern = intern
+        self.kids = kids            # per child of the own reply's body: (isroot, has id)
+        self.ncat = sum(int(r) + int(i) for r, i in kids)
+        self.nh = nh                # href lookups of the own reply
+        self.started = False
+        self.finished = False
+        self.memo_stack = []        # counted?
+        self.memo_frame = None
+        self.memo_kind = None
+        self.cells_in, self.cells_out = [], []
+        self.in_done = self.out_done = 0
+        self.tx = self.rx = False
+        self.send_frame = None
+        self.send_done = self.open_called = self.open_done = False
+        self.proc_frame = None
+        self.proc_done = False
+        self.href_done = 0
+
+    # ---- events (call / return inside suds) ----
+    def on_event(self, tag, frame, event):
+        self.started = True
+        if tag is None:
+            return
+        if tag in ("memo_r", "memo_f"):
+            if event == "call":
+                counted = not self.memo_stack and (not self.tx or self.proc_done)
+                self.memo_stack.append(counted)
+                if counted:
+                    cell = self.cell_of(tag, frame)
+                    (self.cells_out if self.proc_done else self.cells_in).append(cell)
+                    self.memo_frame, self.memo_kind = frame, tag
+            elif self.memo_stack:
+                if self.memo_stack.pop():
+                    if self.proc_done:
+                        self.out_done += 1
+                    else:
+                        self.in_done += 1
+                    self.memo_frame = None
+            return
+        if tag == "tx":
+            if event == "return" and frame.f_locals.get("d") is not None:
+                self.tx = True
+        elif tag == "rx":
+            if event == "return" and frame.f_locals.get("d") is not None:
+                self.rx = True
+        elif tag == "send":
+            if event == "call":
+                self.send_frame = frame
+            else:
+                self.send_done = True
+        elif tag == "open":
+            if event == "call":
+                self.open_called = True
+            else:
+                self.open_done = True
+        elif tag == "proc":
+            if event == "call":
+                self.proc_frame = frame
+            else:
+                self.proc_done = True
+        elif tag == "rr":
+            if event == "return" and frame.f_locals.get("href") is not None and "ref" in frame.f_locals:
+                self.href_done += 1
+
+    def cell_of(self, tag, frame):
+        try:
+            if tag == "memo_r":
+                so = frame.f_locals["self"]
+                n = self.intern("schema-object", Classifier.obj_name(so))
+                return "(LResolved %s %s)" % (cN(n), cbool(bool(frame.f_locals.get("nobuiltin"))))
+            name, bases = frame.f_locals["name"], frame.f_locals["bases"]
+            if not isinstance(bases, tuple):
+                bases = (bases,)
+            key = ".".join((str(name), str(bases)))
+            return "(LFactory %s)" % cN(self.intern("factory-key", repr(key)))
+        except Exception:
+            return "(LFactory %s)" % cN(self.intern("factory-key", "?"))
+
+    # ---- the label at a point of suspension ----
+    def position(self, frame, event):
+        try:
+            return self._position(frame, event)
+        except Exception:
+            return (END, 0) if self.finished else (0, 0)
+
+    def memo_sub(self, base):
+        fr, lab = self.memo_frame, (self.L.resolve if self.memo_kind == "memo_r" else self.L.subclass)
+        ln = fr.f_lineno
+        if lab["get"] is None or lab["set"] is None:
+            return (base, 0)
+        if ln <= lab["get"]:
+            return (base, 0)
+        if ln < lab["set"]:
+            return (base, 1)
+        if ln == lab["set"]:
+            return (base, 2)
+        return (base + 1, 0)
+
+    def _position(self, frame, event):
+        if self.finished:
+            return (END, 0)
+        if not self.started:
+            return (0, 0)
+        a = len(self.cells_in)
+        if not self.tx:
+            base = 1 + self.in_done
+            return self.memo_sub(base) if self.memo_frame is not None else (base, 0)
+        if self.send_frame is None:
+            return (a + 2, 0)
+        if not self.open_called:
+            lp = self.L.send["proxy"]
+            written = lp is not None and not self.send_done and self.send_frame.f_lineno > lp
+            return (a + 2, 1 if written else 0)
+        if not self.open_done:
+            return (a + 3, 0)
+        if not self.rx:
+            return (a + 4, 0)
+        if self.proc_frame is None:
+            return (a + 5, 0)
+        base_out = a + 8 + self.ncat + self.nh
+        if self.proc_done:
+            base = base_out + self.out_done
+            return self.memo_sub(base) if self.memo_frame is not None else (base, 0)
+        # inside MultiRef.process
+        P, ln = self.L.process, self.proc_frame.f_lineno
+        if None in P.values():
+            return (a + 5, 0)
+        stack, f = [], frame
+        while f is not None and f is not self.proc_frame:
+            stack.append(f)
+            f = f.f_back
+        if ln <= P["nodes"]:
+            return (a + 5, 0)
+        if ln <= P["catalog"]:
+            return (a + 6, 0)
+        if ln <= P["build"]:
+            bc = [f for f in stack if f.f_code.co_name == "build_catalog"]
+            return (a + 7 + (self.catalog_progress(bc[-1]) if bc else 0), 0)
+        if ln <= P["update"]:
+            extra = 0
+            rr = [f for f in stack if f.f_code.co_name == "replace_references"]
+            if rr and "ref" in rr[0].f_locals and not (event == "return" and rr[0] is frame):
+                extra = 1
+            return (a + 7 + self.ncat + min(self.nh, self.href_done + extra), 0)
+        if ln <= P["finish"]:
+            return (a + 7 + self.ncat + self.nh, 0)
+        return (base_out, 0)
+
+    def catalog_progress(self, fr):
+        B = self.L.build
+        if None in B.values() or "child" not in fr.f_locals:
+            return 0
+        child, body = fr.f_locals["child"], fr.f_locals.get("body")
+        j = None
+        for n, c in enumerate(getattr(body, "children", [])):
+            if c is child:
+                j = n
+                break
+        if j is None or j >= len(self.kids):
+            return 0
+        before = sum(int(r) + int(i) for r, i in self.kids[:j])
+        isroot, hasid = self.kids[j]
+        ln = fr.f_lineno
+        if ln <= B["for"]:
+            return before + int(isroot) + int(hasid)
+        return before + (1 if isroot and ln > B["append"] else 0) + (1 if hasid and ln > B["set"] else 0)
+
+
 class Scheduler(object):
     """Runs the given thunks in real threads, exactly one at a time; control is
     handed over at chosen trace events (call/return, optionally line) raised
@@ -802,8 +1043,11 @@ class Scheduler(object):
     of its events (None: until it finishes); afterwards the unfinished
     threads run to completion in index order."""
 
-    def __init__(self, world, thunks, plan, lines=False, timeout=30.0):
+    def __init__(self, world, thunks, plan, lines=False, timeout=30.0, trackers=None):
         self.w = world
+        self.trackers = trackers
+        self.timeline = []       # (thread, label) in the order the threads really ran
+        self.tag_cache = {}
         self.thunks = thunks
         self.n = len(thunks)
         self.plan = list(plan)
@@ -837,6 +1081,15 @@ class Scheduler(object):
 
     def tick(self, tid, frame, event):
         self.count[tid] += 1
+        if self.trackers is not None and event != "line":
+            code = frame.f_code
+            tag = self.tag_cache.get(code, 0)
+            if tag == 0:
+                tag = self.tag_cache[code] = TAGS.get((os.path.basename(code.co_filename), code.co_name))
+            if tag is not None:
+                self.trackers[tid].on_event(tag, frame, event)
+            else:
+                self.trackers[tid].started = True
         if self.abort or self.budget is None:
             return
         self.budget -= 1
@@ -853,6 +1106,8 @@ class Scheduler(object):
         nxt = self.next_segment(tid)
         if nxt is None or nxt == tid:
             return
+        if self.trackers is not None:
+            self.timeline.append((tid, self.trackers[tid].position(frame, event)))
         self.sem[nxt].release()
         self.sem[tid].acquire()
 
@@ -889,6 +1144,9 @@ class Scheduler(object):
         finally:
             sys.settrace(None)
         self.finished[tid] = True
+        if self.trackers is not None:
+            self.trackers[tid].finished = True
+            self.timeline.append((tid, (END, 0)))
         nxt = self.next_segment(None)
         if nxt is not None:
             self.sem[nxt].release()
@@ -933,28 +1191,31 @@ def gen_spec(rng, kind, tag):
     return {"sku": "%s%s" % (rng.choice(["k", "sku", "x<y", "z&"]), tag), "n": rng.randrange(0, 4)}
 
 
-def reply_children(world, reply_bytes, tid, key_intern):
-    """The children of the reply's <Body> as the model's `child` records."""
-    root = world.sudsutil.expat_parse(reply_bytes)
-    body = root.find("Body")
+def reply_kids(world, reply_bytes):
+    """Per child of the reply's <Body>: (soapenc:root != "0", id or None)."""
+    try:
+        body = world.sudsutil.expat_parse(reply_bytes).find("Body")
+    except Exception:
+        return []
     out = []
-    for n, ch in enumerate(body.elements()):
+    for ch in body.elements():
         rootattr = ch.attrs.get((ENC, "root"))
-        isroot = True if rootattr is None else rootattr == "1"
-        idv = ch.attrs.get((None, "id"))
-        hrefs = []
+        out.append((True if rootattr is None else rootattr == "1", ch.attrs.get((None, "id"))))
+    return out
 
-        def walk(e):
-            h = e.attrs.get((None, "href"))
-            if h is not None:
-                hrefs.append(key_intern(h))
-            for c in e.elements():
-                walk(c)
-        walk(ch)
+
+def reply_children(world, reply_bytes, tid, key_intern, href_seq):
+    """The children of the reply's <Body> as the model's `child` records.  The
+    href keys are listed in the order MultiRef.update looks them up (recorded
+    from the solo run: a referenced node's content is visited through its
+    referrer); the model only uses the flattened sequence, so they are attached
+    to the first child."""
+    out = []
+    for n, (isroot, idv) in enumerate(reply_kids(world, reply_bytes)):
+        hrefs = [cN(key_intern(h)) for h in href_seq] if n == 0 else []
         out.append("(mkchild %s %s %s %s)" % (
             cN((tid + 1) * 100 + n + 1), cbool(isroot),
-            cN(key_intern("#" + idv)) if idv is not None else cN(0),
-            clist([cN(h) for h in hrefs], "N")))
+            cN(key_intern("#" + idv)) if idv is not None else cN(0), clist(hrefs, "N")))
     return clist(out, "child")
 
 
@@ -1010,6 +1271,7 @@ class Runner(object):
         self.ck = ck
         self.w = world
         self.solo_cache = {}
+        self.labels = None
         self.intern = Interner()
         self.fp = Footprint(world, self.intern)
 
@@ -1020,9 +1282,27 @@ class Runner(object):
             w = self.w
             c = w.new_client(variant)
             n0 = len(w.log)
-            res = run_impl(w.invoke(c, kind, spec))
+            hrefs = []
+
+            def local(fr, ev, a):
+                if ev == "return" and fr.f_locals.get("href") is not None and "ref" in fr.f_locals:
+                    hrefs.append(str(fr.f_locals.get("id")))
+                return local
+
+            def glob(frame, event, arg):
+                code = frame.f_code
+                if code.co_name == "replace_references" and code.co_filename.endswith("multiref.py"):
+                    return local
+                return None
+            go = w.invoke(c, kind, spec)
+            sys.settrace(glob)
+            try:
+                res = run_impl(go)
+            finally:
+                sys.settrace(None)
             entries = w.log[n0:]
             self.solo_cache[key] = {
+                "hrefs": hrefs,
                 "res": (res[0], w.canon(res[1]) if res[0] == "ok" else res[1]),
                 "reqs": [w.canon_request(e) for e in entries],
                 "reply": entries[0][4] if entries else b"",
@@ -1059,12 +1339,18 @@ class Runner(object):
                     run_impl(w.invoke(clients[c], kind, spec))
         if cold:
             clear_memo_caches(w, clients)
+        solos = [self.solo(setup.effective(c), kind, spec) for c, kind, spec in setup.threads]
         thunks = [w.invoke(clients[c], kind, spec) for c, kind, spec in setup.threads]
+        if self.labels is None:
+            self.labels = Labels(w)
+        trackers = []
+        for so in solos:
+            kids = [(r, i is not None) for r, i in reply_kids(w, so["reply"])]
+            trackers.append(Tracker(w, self.labels, self.intern, kids, len(so["hrefs"])))
         n0 = len(w.log)
-        s = Scheduler(w, thunks, plan, lines=lines)
+        s = Scheduler(w, thunks, plan, lines=lines, trackers=trackers)
         results = s.run()
         entries = w.log[n0:]
-        solos = [self.solo(setup.effective(c), kind, spec) for c, kind, spec in setup.threads]
         outs = []
         for tid, r in enumerate(results):
             mine = [w.canon_request(e) for e in entries if e[0] == s.ident[tid]]
@@ -1093,22 +1379,18 @@ class Runner(object):
 # the check
 # ---------------------------------------------------------------------------
 
-def call_term(world, setup, tid, solos, memo_cells, key_intern):
+def call_term(world, setup, tid, solos, sched, key_intern):
     c, kind, spec = setup.threads[tid]
-    cells_in, cells_out = memo_cells.get(kind, ([], []))
+    tr = sched.trackers[tid]
     return "(mkcall %s %s %s %s %s %s)" % (
         cN(c), cN(FRESH_BASE + tid), cN(tid + 1),
-        clist(cells_in, "cloc"), clist(cells_out, "cloc"),
-        reply_children(world, solos[tid]["reply"], tid, key_intern))
+        clist(tr.cells_in, "cloc"), clist(tr.cells_out, "cloc"),
+        reply_children(world, solos[tid]["reply"], tid, key_intern, solos[tid]["hrefs"]))
 
 
-def plan_permille(plan, totals):
-    out = []
-    for t, b in plan:
-        tot = max(1, totals[t])
-        pm = 1000 if b is None else min(1000, (1000 * b) // tot)
-        out.append("(%s, %s)" % (cnat(t), cN(pm)))
-    return clist(out, "nat * N")
+def plan_term(sched):
+    return clist(["(%s, (%s, %s))" % (cnat(t), cnat(min(END, pc)), cnat(min(END, sub)))
+                  for t, (pc, sub) in sched.timeline], "nat * (nat * nat)")
 
 
 def run(ck):
@@ -1222,15 +1504,18 @@ def run(ck):
             problems.append(("Endpoint.__getattr__ model", lk_meta[i]))
 
     # ---------------- instrument 2: schedules ----------------
-    sc_cases, sc_meta = schedule_cases(ck, world, runner, rng, quick, memo_cells, suspicious_fp, fp_meta)
-    res_sc = ck.run_cases("sched", PRE, "sched_case", sc_cases, ["sc_agrees", "sc_spec_ok"], shard=150)
+    sc_cases, sc_meta, sc_groups = schedule_cases(ck, world, runner, rng, quick, memo_cells, suspicious_fp, fp_meta)
+    res_sc = ck.run_cases("sched", PRE, "sched_case", sc_cases, ["sc_agrees", "sc_spec_ok"], shard=100)
     bad_sc = set(res_sc["sc_spec_ok"])
     for i in sorted(bad_sc):
-        m = sc_meta[i]
-        ck.failing_input(m["class"], m["what"], m["payload"])
+        for j in sc_groups[i]:
+            m = sc_meta[j]
+            ck.failing_input(m["class"], m["what"], m["payload"])
     for i in res_sc["sc_agrees"]:
         if i not in bad_sc:
-            problems.append(("schedule model", sc_meta[i]["payload"]))
+            problems.append(("schedule model (the labelled interleaving of the model program gives another "
+                             "outcome than the real threads)", sc_meta[sc_groups[i][0]]["payload"]))
+    ck.extra["distinct_model_schedules"] = len(sc_cases)
 
     # footprint failures.  A call that writes another client's message slot (or
     # reads the slot) contradicts "own message history" directly.  Any other
@@ -1294,6 +1579,10 @@ def fp_offenders(m):
 
 def fp_class(m):
     text = fp_offenders(m)
+    if "MultiRef" not in text and "class-level cell" in text:
+        return "C13:class-level-state-written"
+    if "MultiRef" not in text and "per-binding cell" in text:
+        return "C13:binding-state-written"
     if "ANOTHER client's history" in text:
         return "C13:message-history-shared"
     if "MultiRef" in text:
@@ -1475,6 +1764,7 @@ def pick_points(rng, names, budget, exhaustive, part=0, parts=1):
 
 def schedule_cases(ck, world, runner, rng, quick, memo_cells, suspicious_fp, fp_meta):
     cases, meta = [], []
+    case_index, groups = {}, []      # identical Coq terms are evaluated once
     classes = {}
     key_intern_tab = Interner()
 
@@ -1482,10 +1772,17 @@ def schedule_cases(ck, world, runner, rng, quick, memo_cells, suspicious_fp, fp_
         return key_intern_tab("href", s)
 
     def record(setup, plan, cold, lines, outs, s, solos, totals, label):
-        calls = clist([call_term(world, setup, t, solos, memo_cells, key_intern)
+        calls = clist([call_term(world, setup, t, solos, s, key_intern)
                        for t in range(len(setup.threads))], "call")
         obs = clist(["(mkout %s %s)" % (cbool(o["req_own"]), cN(o["res"])) for o in outs], "outcome")
-        cases.append("(mksc %s %s %s)" % (calls, plan_permille(plan, totals), obs))
+        term = "(mksc %s %s %s)" % (calls, plan_term(s), obs)
+        if term in case_index:
+            case_no = case_index[term]
+        else:
+            case_no = case_index[term] = len(cases)
+            cases.append(term)
+            groups.append([])
+        groups[case_no].append(len(meta))
         bad = [(t, o) for t, o in enumerate(outs) if not (o["req_own"] and o["res"] == 0)]
         what, cls = "", "C13:interference"
         if bad:
@@ -1662,7 +1959,7 @@ def schedule_cases(ck, world, runner, rng, quick, memo_cells, suspicious_fp, fp_
             ck.sample({"schedule": m["payload"]["plan"], "preempted at": m["payload"]["switches"][:2],
                        "threads": [(c, k) for c, k, _ in m["payload"]["setup"]["threads"]],
                        "outcomes": [(o["req_own"], o["res"]) for o in m["payload"]["outcomes"]]})
-    return cases, meta
+    return cases, meta, groups
 
 
 # ---------------------------------------------------------------------------
